@@ -82,7 +82,7 @@ func TestVerifC01(t *testing.T) {
 	nDocs, nMulti := 36, 6
 	if vthorough() {
 		ths = []float64{0.7, 0.75, 0.8, 0.9, 0.95, 1.0}
-		nDocs, nMulti = len(vcorpus), 60
+		nDocs, nMulti = len(vcorpus), 150
 	} else if vseed()%2 == 0 {
 		ths = []float64{0.8, 0.9}
 	}
@@ -192,7 +192,7 @@ func TestVerifC04(t *testing.T) {
 	c := vdefault()
 	nIn, reps := 14, 4
 	if vthorough() {
-		nIn, reps = 120, 8
+		nIn, reps = 240, 8
 	}
 	inputs := vgenInputs(r, nIn/3+1, nIn/3+1, nIn/4, nIn/6)
 	// always include the corpus documents that are textually identical to another one
@@ -597,7 +597,7 @@ func vrunMeta(t *testing.T, prop string) {
 	c := vdefault()
 	n := 10
 	if vthorough() {
-		n = 200
+		n = 440 // every corpus document
 	}
 	cnt := map[string]int{}
 	for _, in := range vmetaInputs(r, n) {
@@ -780,7 +780,7 @@ func TestVerifC07(t *testing.T) {
 	c := vdefault()
 	n := 28
 	if vthorough() {
-		n = 420
+		n = 700
 	}
 	vloadFiles()
 	cnt := 0
